@@ -98,6 +98,13 @@ func (info *decodeInfo) decodeCharString(code []byte, name string) (*Glyph, erro
 		})
 	}
 
+	// Nested subroutine calls can multiply the amount of work: a subroutine
+	// which calls another one several times, which in turn does the same,
+	// ..., executes (number of calls)^(nesting depth) operations.  The total
+	// number of operations for one glyph is therefore limited.
+	const maxSteps = 1 << 20
+	numSteps := 0
+
 	cmdStack := [][]byte{code}
 glyphLoop:
 	for len(cmdStack) > 0 {
@@ -107,6 +114,10 @@ glyphLoop:
 		for len(code) > 0 {
 			if len(stack) > maxStack {
 				return nil, errStackOverflow
+			}
+			numSteps++
+			if numSteps > maxSteps {
+				return nil, errTooComplex
 			}
 
 			op := t1op(code[0])
